@@ -107,7 +107,7 @@ pub fn attribute(col: &Col, table: &[Vec<u8>], h: Option<u32>, want: Option<bool
 pub fn check_bool(res: Result<Result<BooleanArray, ArrowError>, vcore::PanicInfo>, n: usize, want: impl Fn(usize) -> Option<bool>) -> Result<(), (String, Mismatch)> {
     let mm = |row, got: String, want: String, count| Mismatch { row, got, want, count, want_b: None };
     let arr = match res {
-        Err(p) => return Err((p.fingerprint(), mm(0, format!("panic {p:?}"), "a result".into(), 1))),
+        Err(p) => return Err((crate::util::pfp(&p), mm(0, format!("panic {p:?}"), "a result".into(), 1))),
         Ok(Err(e)) => return Err(("unexpected-error".into(), mm(0, format!("Err({e})"), "Ok".into(), 1))),
         Ok(Ok(a)) => a,
     };
